@@ -49,7 +49,11 @@ RULE = ("patterns: corpus of minimised witnesses + grammar-generated anchored pa
         "anchors; strings sampled from the pattern's own alphabet +-1 (XML characters without line "
         "breaks); non-trivial = the pattern has an encoded character, a set or a quantifier. "
         "meta-models: seeded generator (mmgen profiles tiny/small/medium; every second model gets "
-        "hostile patterns injected), one document per instance that the generated SDK verifies "
+        "hostile patterns injected) plus hand-built 'sites' models (required / optional lists of a "
+        "concrete class with concrete descendants, of an abstract class and of a leaf class, filled "
+        "with one item of every concrete class; one constrained primitive at several sites with "
+        "different tightenings in three definition orders; values constrained only by a constant "
+        "set or only by the XML-character pattern), one document per instance that the generated SDK verifies "
         "without errors; distinct by (model, class)")
 
 XML_PATTERN = "^[\\x09\\x0A\\x0D\\x20-\\uD7FF\\uE000-\\uFFFD\\U00010000-\\U0010FFFF]*$"
@@ -143,7 +147,7 @@ def model_oracle(ctx, models, results) -> Dict[str, Any]:
                                    f"{str(res)[:1500]}")
         x = res.get("xsd") or {}
         if x.get("exception") is not None:
-            ctx.impl_failure(f"xsd-generator-raises-{x['exception']['class']}",
+            ctx.impl_failure(f"xsd-generator-raises-{gx.exception_site(x['exception'])}",
                              "the XSD generator raises on an accepted meta-model",
                              dict(ident, model_text=m["text"]), x["exception"], "models", how)
             continue
@@ -177,7 +181,7 @@ def model_oracle(ctx, models, results) -> Dict[str, Any]:
         stats["classes_without_valid_instance"] += len(st.get("no_valid_instance") or [])
         for cls in (st.get("docs_per_class") or {}):
             nontrivial.append((m["index"], cls))
-        diamonds = {gx.lcc(c) for c in gx.diamond_classes(m["mm"])}
+        diamonds = {gx.lcc(c) for c in gx.diamond_classes(m["mm"])} if m["mm"] is not None else set()
         seen = set()
         for vf in res.get("valid_fail") or []:
             if vf["kind"] != "valid-document-rejected":
@@ -217,12 +221,15 @@ def streams(ctx: lib.Ctx) -> None:
 
     # 2. meta-models: real CLI -> schema -> SDK documents
     models = gx.gen_models(ctx.rng, ctx.n(5, 40))
+    # hand-built shapes: lists of classes with descendants, one constrained primitive at
+    # several sites with different tightenings, values with nothing for XSD to emit
+    models += gx.gen_sites_models(ctx.rng, ctx.n(3, 9))
     mres = gx.run_models(models, n_docs=ctx.n(40, 60), mutants_per_doc=0)
     mstats = model_oracle(ctx, models, mres)
     nontrivial = mstats.pop("nontrivial")
     feats: Dict[str, int] = {}
     for m in models:
-        for k, v in (m["mm"].features or {}).items():
+        for k, v in ((m["mm"].features if m["mm"] is not None else None) or {}).items():
             if isinstance(v, (int, float)):
                 feats[k] = feats.get(k, 0) + v
     ctx.count("models", mstats["documents"], nontrivial_keys=nontrivial,
